@@ -66,10 +66,19 @@ pub const NAMES: [&str; 13] = [
     "over_aligned_payload",
 ];
 
-/// Alignment filler of the over-aligned payload variant.
+/// Alignment fillers of the over-aligned payload variants.
+#[repr(align(16))]
+#[derive(Default)]
+pub struct Align16;
+#[repr(align(32))]
+#[derive(Default)]
+pub struct Align32;
 #[repr(align(64))]
 #[derive(Default)]
 pub struct Align64;
+#[repr(align(128))]
+#[derive(Default)]
+pub struct Align128;
 
 pub trait Fam: Sized + 'static {
     type R;
@@ -332,15 +341,21 @@ mod cx {
     use cactusref::{Rc, Weak};
     impl_fam!(Cx, Rc, Weak, ());
     impl_fam!(CxA, Rc, Weak, Align64);
+    impl_fam!(CxA16, Rc, Weak, Align16);
+    impl_fam!(CxA32, Rc, Weak, Align32);
+    impl_fam!(CxA128, Rc, Weak, Align128);
 }
 mod sd {
     use super::*;
     use std::rc::{Rc, Weak};
     impl_fam!(Sd, Rc, Weak, ());
     impl_fam!(SdA, Rc, Weak, Align64);
+    impl_fam!(SdA16, Rc, Weak, Align16);
+    impl_fam!(SdA32, Rc, Weak, Align32);
+    impl_fam!(SdA128, Rc, Weak, Align128);
 }
-pub use cx::{Cx, CxA};
-pub use sd::{Sd, SdA};
+pub use cx::{Cx, CxA, CxA128, CxA16, CxA32};
+pub use sd::{Sd, SdA, SdA128, SdA16, SdA32};
 
 #[derive(Clone, Debug, PartialEq, Eq, Serialize, Deserialize)]
 pub enum POp {
@@ -384,6 +399,9 @@ pub struct Prog {
     /// allocation differs from the header size)
     #[serde(default)]
     pub over_aligned: bool,
+    /// payload alignment: 0 = 8 bytes (or 64 if `over_aligned`), 1 = 16, 2 = 32, 3 = 64, 4 = 128
+    #[serde(default)]
+    pub align: u8,
 }
 
 struct State<F: Fam> {
@@ -721,16 +739,29 @@ impl Kind for ProgKind {
     type Case = Prog;
     fn strategy(_id: &str, tier: Tier, _variant: u64) -> BoxedStrategy<Prog> {
         let n = if tier == Tier::Thorough { 140 } else { 80 };
-        (vec(pop_strategy(), 1..n), 0u8..4).prop_map(|(ops, a)| Prog { ops, over_aligned: a == 0 }).boxed()
+        (vec(pop_strategy(), 1..n), 0u8..10).prop_map(|(ops, a)| Prog { ops, over_aligned: false, align: if a < 5 { 0 } else { a - 5 } }).boxed()
     }
     fn run(_id: &str, _tier: Tier, c: &Prog) -> CaseResult {
         let views = View::Diff.bit() | View::Crash.bit() | View::Abort.bit() | View::LibPanic.bit();
         let mut r = exec::run_forked(views, crate::runner::CASE_TIMEOUT_S, || {
             crate::interp::install_panic_hook();
             FLAGS.with(|f| f.set(0));
-            let a = std::panic::catch_unwind(|| if c.over_aligned { run_prog::<CxA>(c) } else { run_prog::<Cx>(c) });
-            let fa = FLAGS.with(|f| f.get()) | if c.over_aligned { 1 << F_OVER_ALIGNED } else { 0 };
-            let b = std::panic::catch_unwind(|| if c.over_aligned { run_prog::<SdA>(c) } else { run_prog::<Sd>(c) });
+            let al = if c.over_aligned && c.align == 0 { 3 } else { c.align };
+            let a = std::panic::catch_unwind(|| match al {
+                1 => run_prog::<CxA16>(c),
+                2 => run_prog::<CxA32>(c),
+                3 => run_prog::<CxA>(c),
+                4 => run_prog::<CxA128>(c),
+                _ => run_prog::<Cx>(c),
+            });
+            let fa = FLAGS.with(|f| f.get()) | if al != 0 { 1 << F_OVER_ALIGNED } else { 0 };
+            let b = std::panic::catch_unwind(|| match al {
+                1 => run_prog::<SdA16>(c),
+                2 => run_prog::<SdA32>(c),
+                3 => run_prog::<SdA>(c),
+                4 => run_prog::<SdA128>(c),
+                _ => run_prog::<Sd>(c),
+            });
             let sh = exec::shared();
             sh.labels = fa;
             match (a, b) {
@@ -766,7 +797,7 @@ impl Kind for ProgKind {
         r
     }
     fn compact(c: &Prog) -> String {
-        format!("{}{}", if c.over_aligned { "[align64] " } else { "" }, c.ops.iter().map(|o| format!("{:?}", o)).collect::<Vec<_>>().join(" "))
+        format!("{}{}", if c.over_aligned || c.align != 0 { format!("[align {}] ", [8, 16, 32, 64, 128][(if c.over_aligned && c.align == 0 { 3 } else { c.align.min(4) }) as usize]) } else { String::new() }, c.ops.iter().map(|o| format!("{:?}", o)).collect::<Vec<_>>().join(" "))
     }
     fn sample_ok(c: &Prog) -> bool {
         c.ops.len() <= 45
